@@ -17,6 +17,23 @@ func init() {
 
 func Checks() map[string]*simcore.Check {
 	return map[string]*simcore.Check{
+		"C28": {
+			ID: "C28", Engine: "execsim", Level: "exploration",
+			Rule: "case = fork (cancun..amsterdam) + base state of 3-7 generated contracts (stack/memory heavy snippets, unwritten-memory reads, MCOPY/RETURNDATACOPY, CREATE/CREATE2, precompile calls with repeated and fresh inputs, jump tables, jumps into push data) + corpus of 8-40 messages (call / create / ad-hoc code, incl. two init codes that differ only in whether pc 5 is a JUMPDEST or push data, and probes returning memory never written) + a planned single-goroutine order and 2-8 concurrent actors with 3-12 steps each; every step picks a flavour (vm/runtime.Call|Create|Execute; same sequence on runtime.NewEnv with shared jump-dest + precompile caches and arena release; nested under 0-600 wrapper frames). References: each message alone on a fresh StateDB with private caches after two GC cycles (empty pools). Non-trivial = >=2 concurrent actors and a non-empty sequential phase; distinct = distinct (reference results, actor count, GOMAXPROCS).",
+			Assumptions: []string{
+				"the reference is produced by the same EVM code, alone and first (pools emptied by two GC cycles, private caches); a defect that corrupts even a lone first execution is outside this check (unwritten-memory probes are checked against zero directly)",
+				"wrapper nesting keeps total call depth below 1024 (generated programs recurse < 150 frames), the inner call gets a fixed gas amount, so depth may not legally change the inner result",
+				"interleavings inside the interpreter are perturbed (goroutines meet at a barrier before each step, GOMAXPROCS 1..16 per run, race-detector build), not decided",
+			},
+			Components: simcore.Components{
+				Real: []string{"vm.EVM / interpreter / stack arena / memory pool / Contract jump-dest analysis", "core/vm/runtime Call, Create, Execute, NewEnv", "core.NewJumpDestCache (shared, sharded LRU)", "vm.PrecompileCache (shared)", "state.StateDB over triedb hash scheme"},
+				Stub: []string{"disk: simdisk.SimKV", "wrapper contract that nests the message under N call frames (harness-made bytecode)"},
+			},
+			Perturbed: []string{"goroutine interleaving of 2-8 EVMs sharing caches and sync.Pools (GOMAXPROCS 1/2/4/8/16 per run; checks.json gomaxprocs for the process start value)", "sync.Pool reuse pattern"},
+			Runs:      map[string]int{"quick": 1000, "thorough": 50000},
+			Gen:       gen28, Decode: decode28, Run: run28, Shrink: shrink28,
+			ProbeNames: []string{"flavor-0", "flavor-1", "flavor-2", "depth>100", "unwritten-memory-probes", "concurrent-executions", "ref-ok", "ref-failed"},
+		},
 		"C34": {
 			ID: "C34", Engine: "execsim", Level: "fault_enumeration",
 			Rule: "case = world (fork cancun/prague/osaka/amsterdam; 1-5 senders, 2-6 generated contracts touching shared slots, other accounts' balance/code, absent accounts, storage deletes, creates, self-destructs, BLOCKHASH of ancestors, system contracts) + 1-3 blocks of 0-12 transactions + chain knobs (hash/path scheme, cache sizes, prefetcher on/off) + per block a sample of witness elements to remove (trie node / code blob / ancestor header; thorough: larger sample). Each block is imported with InsertBlockWithoutSetHead(makeWitness=true); ExecuteStateless runs on the collected witness, then once per removal. Non-trivial = a block with >=1 transaction; distinct = distinct (fork, knobs, block hashes).",
